@@ -58,7 +58,8 @@ impl Dp {
             return Err(Error::BadEpsilon(epsilon));
         }
 
-        if !(f64::MIN_POSITIVE..=1.0 - f64::MIN_POSITIVE).contains(&delta) {
+        // `1.0 - f64::MIN_POSITIVE` rounds to 1.0: an inclusive upper bound would accept delta = 1
+        if !(f64::MIN_POSITIVE..1.0).contains(&delta) {
             return Err(Error::BadDelta(delta));
         }
 
@@ -196,7 +197,8 @@ impl OPRFPaddingDp {
             return Err(Error::BadEpsilon(new_epsilon));
         }
 
-        if !(f64::MIN_POSITIVE..=1.0 - f64::MIN_POSITIVE).contains(&new_delta) {
+        // `1.0 - f64::MIN_POSITIVE` rounds to 1.0: an inclusive upper bound would accept delta = 1
+        if !(f64::MIN_POSITIVE..1.0).contains(&new_delta) {
             return Err(Error::BadDelta(new_delta));
         }
         if new_sensitivity > 1_000_000 {
